@@ -83,6 +83,12 @@ def make_variants(rng, prog, input_rels, cname, init_rel, init_rows, bogus_rows)
         v = E.Variant('redecl', p2, 'ascent', body_text='\n'.join('      ' + l for l in head + items[:k] + [bogus] + items[k:]) if k <= [i for i, l in enumerate(items) if l.startswith(('relation %s(' % init_rel, 'lattice %s(' % init_rel))][0]
                       else '\n'.join('      ' + l for l in head + [bogus] + items))
         add(v, 're-declared relation %s: the later declaration wins' % init_rel, inputs_include_init=False)
+        # an earlier declaration WITH an initialiser, re-declared later WITHOUT one: the relation starts empty (the harness
+        # then pushes the real rows)
+        head3, items3 = p2.lines()
+        k3 = [i for i, l in enumerate(items3) if l.startswith(('relation %s(' % init_rel, 'lattice %s(' % init_rel))][0]
+        v = E.Variant('redeclempty', p2, 'ascent', body_text='\n'.join('      ' + l for l in head3 + items3[:k3] + [bogus] + items3[k3:]))
+        add(v, 'declaration of %s with an initialiser, re-declared later without one: starts empty' % init_rel, inputs_include_init=True)
         # the same through include_source!: the included chunk carries the bogus declaration and is included FIRST;
         # the program's own (later) declaration must win, in serial and parallel macros
         for nm, kind, par in (('incredecl', 'ascent', False), ('incredeclpar', 'ascent_par', True)):
